@@ -2,6 +2,7 @@
 
 Case line: `op n arg...` where `n` = len(lhs) (informational), limb lists `a,b,c` (hex words, `-` empty).
 """
+import os
 from vgen import hx
 
 BIN = 'c15'
@@ -362,3 +363,76 @@ def extra_checks(tier, rng, findings):
         if k is not None:
             viol.append((k if k != 'model-error' else 'impl-violation', c + '   [release build]', i, m, s))
     return {'violations': viol[:50], 'coverage': {'release_rerun': {'cases': len(cases), 'mismatches': len(viol), 'cargo_s': round(secs, 1)}}}
+
+
+# ----------------------------------------------------------------------------------------------
+# (G) generated facts: the unrolled `addmul_1..4` bodies, re-extracted from the source on every run
+
+GEN_REL = 'Ruint/Gen/AddmulN.lean'
+
+
+def _extract_unrolled(src):
+    """-> {k: [(target_index, a_index, b_index, carry_in('0'|'carry'), keeps_carry)]} or None"""
+    import re
+    out = {}
+    for k in (1, 2, 3, 4):
+        m = re.search(r'fn addmul_%d\(lhs: &mut \[u64\], a: &\[u64\], b: &\[u64\]\) \{(.*?)\n\}' % k, src, re.S)
+        if not m:
+            return None
+        body = m.group(1)
+        steps = []
+        for line in body.split('\n'):
+            line = line.strip()
+            if not line or line.startswith('assume!') or line.startswith('//'):
+                continue
+            mm = re.fullmatch(r'(let carry = )?mac\(&mut lhs\[(\d+)\], a\[(\d+)\], b\[(\d+)\], (0|carry)\);', line)
+            if not mm:
+                return None
+            steps.append((int(mm.group(2)), int(mm.group(3)), int(mm.group(4)), mm.group(5), bool(mm.group(1))))
+        out[k] = steps
+    m = re.search(r'match lhs\.len\(\) \{(.*?)\n    \}', src, re.S)
+    if not m:
+        return None
+    arms = re.findall(r'^\s*(\d+) => (\w+)?', m.group(1), re.M)
+    out['dispatch'] = [(int(n), f) for n, f in arms]
+    return out
+
+
+def _render(ex):
+    L = ['import Ruint.Model.MulKernels',
+         '/-! GENERATED by tools/props/c15.py (`translate`) from `src/algorithms/mul.rs` on every check run — do not edit.',
+         '    The unrolled `addmul_1..4` bodies exactly as the source has them (target limb, operand limbs, carry use). -/',
+         'namespace Ruint.Gen.AddmulN', 'open Ruint.Limb', '']
+    for k in (1, 2, 3, 4):
+        args = ' '.join(['l%d' % i for i in range(k)] + ['a%d' % i for i in range(k)] + ['b%d' % i for i in range(k)])
+        L.append('def addmul%d (B %s : Nat) : List Nat :=' % (k, args))
+        for (t, ai, bi, cin, keep) in ex[k]:
+            L.append('  let (l%d, %s) := mac B l%d a%d b%d %s' % (t, 'carry' if keep else '_', t, ai, bi, cin))
+        L.append('  [' + ', '.join('l%d' % i for i in range(k)) + ']')
+        L.append('')
+    L.append('/-- lengths that `addmul_n` dispatches to an unrolled body (the rest go to `addmul`; 0 is a no-op) -/')
+    L.append('def unrolledLengths : List Nat := [' + ', '.join(str(n) for n, f in ex['dispatch'] if f and f.startswith('addmul_')) + ']')
+    L.append('')
+    L.append('end Ruint.Gen.AddmulN')
+    return '\n'.join(L) + '\n'
+
+
+def translate(repo, lean):
+    import os
+    path = os.path.join(lean, GEN_REL)
+    try:
+        src = open(os.path.join(repo, 'src', 'algorithms', 'mul.rs')).read()
+        ex = _extract_unrolled(src)
+    except OSError:
+        ex = None
+    if ex is None:
+        return {'changed': False, 'obligations': [], 'unavailable': ['addmul_1..4 bodies: anchors not found in src/algorithms/mul.rs (tie skipped, committed Gen file kept)']}
+    text = _render(ex)
+    old = open(path).read() if os.path.exists(path) else None
+    if old != text:
+        os.makedirs(os.path.dirname(path), exist_ok=True)
+        open(path, 'w').write(text)
+    return {'changed': old is not None and old != text,
+            'obligations': [],   # the Gen-dependent theorems (gen_addmul{1..4}_spec, gen_dispatch) live in Props/C15.lean and are counted there
+            'extracted': {'addmul_%d' % k: ['lhs[%d] += a[%d]*b[%d] + %s%s' % (t, a, b, c, ' -> carry' if kp else '') for (t, a, b, c, kp) in ex[k]] for k in (1, 2, 3, 4)},
+            'dispatch': ex['dispatch'], 'file': GEN_REL}
